@@ -428,6 +428,7 @@ func specEarlyMS(availS, nowS, atoS float64) int {
 //@   ensures  phase: forall idx in [0, len(rep.Segments)) :: (int(rep.Segments[idx].StartTime) == int(time) - int(time)/wrapDurOf(a, rep)*wrapDurOf(a, rep) ==> (err == nil <==> phaseOf(a, rep, cfg, idx, int(time)/wrapDurOf(a, rep), nowMS) == phaseOK))
 //@   ensures  early: forall idx in [0, len(rep.Segments)) :: (int(rep.Segments[idx].StartTime) == int(time) - int(time)/wrapDurOf(a, rep)*wrapDurOf(a, rep) ==> (typeIs(err, errTooEarly{}) <==> phaseOf(a, rep, cfg, idx, int(time)/wrapDurOf(a, rep), nowMS) == phaseEarly))
 //@   ensures  gone: forall idx in [0, len(rep.Segments)) :: (int(rep.Segments[idx].StartTime) == int(time) - int(time)/wrapDurOf(a, rep)*wrapDurOf(a, rep) ==> (err == errGone <==> phaseOf(a, rep, cfg, idx, int(time)/wrapDurOf(a, rep), nowMS) == phaseGone))
+//@   callsite Errorf requires unknownSegmentIsNotFound: (nvarargs == 1 && vararg0 == errNotFound) || (nvarargs == 3 && vararg2 == errNotFound)
 //@   ensures  nrOf: forall idx in [0, len(rep.Segments)) :: (int(rep.Segments[idx].StartTime) == int(time) - int(time)/wrapDurOf(a, rep)*wrapDurOf(a, rep) && err == nil ==> sm.newNr == uint32(specStartNr(cfg)+idx+int(time)/wrapDurOf(a, rep)*len(rep.Segments)))
 //@   ensures  miss: (forall idx in [0, len(rep.Segments)) :: int(rep.Segments[idx].StartTime) != int(time) - int(time)/wrapDurOf(a, rep)*wrapDurOf(a, rep)) ==> err != nil && !typeIs(err, errTooEarly{}) && err != errGone
 
@@ -490,6 +491,7 @@ func lemmaFrameCeilMono(t1, t2, refTimescale, fd, audioTimescale uint64) {
 // findRefSegMetaFromTime: an audio $Time$ address (a multiple of the audio frame duration) is
 // mapped to the reference (video) segment whose interval contains the corresponding reference time.
 //@ func findRefSegMetaFromTime
+//@   callsite Errorf requires unknownSegmentIsNotFound: arg0 == "no constant sample duration" || (nvarargs == 1 && vararg0 == errNotFound)
 //@   returns  (sm, err)
 //@   nowrap assumed
 //@   requires a != nil && a.refRep != nil && wfRep(a.refRep) && loopExact(a, a.refRep) && wfCfg(cfg) && 0 <= nowMS && nowMS <= maxNowMS
